@@ -48,6 +48,15 @@ def run(prop, tier, cfg, mode_text):
         args = ["--seed", vlib.seed(), "--ops", ops, "--cross-every", cross, "--max-points", maxp]
         summs, files, died = vlib.run_chunked(vdb, "crash", args, programs, 1, os.path.join(work, "crash"),
                                               jobs=10, timeout=1500, as_gb=6)
+        # the same with values of exact sizes around 64 KiB multiples (replaced in place, removed, reused): sizes at which an
+        # implementation may chunk or split its log records; fewer programs (every image is hundreds of KB)
+        bprog = 24 if thorough else 4
+        bargs = ["--seed", vlib.seed(), "--ops", 8, "--cross-every", cross, "--max-points", 24, "--profile", "crash_big"]
+        bsumms, bfiles, bdied = vlib.run_chunked(vdb, "crash", bargs, bprog, 1, os.path.join(work, "crash_big"),
+                                                 jobs=8, timeout=1500, as_gb=8)
+        summs += bsumms
+        files += bfiles
+        died += [(1000 + p_, how) for (p_, how) in bdied]
         trace = os.path.join(work, "crash_trace.ndjson")
         extra = []
         for (prog, how) in died:
